@@ -8,7 +8,9 @@
 (*  per execution                                                          *)
 (*   {k:"begin", x, n0, n1, b:[n1 bytes], err, e0, tb, pt:[[v,n]..],        *)
 (*    et:[tell,frac,rhi,rlo], dt:[..], can, tdiff, dmod, ...}               *)
-(*        n0 initial size, n1 final storage, b the produced bytes, e0/err   *)
+(*        n0 initial size, n1 final storage, b the bytes the decoder read   *)
+(*        (garb = 1: the driver overwrote the stream with random bytes to   *)
+(*        exercise the decoder on arbitrary input; premise false), e0/err   *)
 (*        encoder error flag before/after ec_enc_done, tb = ec_tell before  *)
 (*        ec_enc_done, pt the initial-bit patches in call order, et/dt the  *)
 (*        counters of a fresh encoder / decoder, can = canaries intact,     *)
@@ -29,6 +31,7 @@
 (*   fracVsWhole  tell = ceil(tell_frac/8) (each side)                      *)
 (*   outside      can = 1, tdiff = 0, dmod = 0                              *)
 (*   doneCannotFail  e0 = 0 /\ tb <= 8*n1 => err = 0                        *)
+(*   budget       tb <= 8*n1 and no patch was refused => err = 0            *)
 (* and, as exact normative arithmetic (R1: decoder arithmetic is normative),*)
 (*   m32val/m32tell  TLC's own decoding of b with RangeDec32 returns the    *)
 (*                same values, tell and tell_frac as the real decoder       *)
@@ -91,12 +94,15 @@ Quad(d) == <<D!Tell(d), D!TellFrac(d), D!RngHalves(d.rm)[1], D!RngHalves(d.rm)[2
 BeginReasons(h, e) ==
   LET pb == PatchBitsOf(e.pt, 1, NoPatch)
       wf == MaxPatched(pb) <= LeadScan(h + 1, 0)
-      prem == e.err = 0 /\ wf
+      prem == e.err = 0 /\ wf /\ e.garb = 0
       d0 == D!Init(e.b, e.n1) IN
   (IF prem /\ e.et # e.dt THEN {"tellEqual"} ELSE {})
   \cup (IF ~FracWholeRel(e.et[1], e.et[2]) \/ ~FracWholeRel(e.dt[1], e.dt[2]) THEN {"fracVsWhole"} ELSE {})
   \cup (IF e.can # 1 \/ e.tdiff # 0 \/ e.dmod # 0 THEN {"outside"} ELSE {})
   \cup (IF e.e0 = 0 /\ e.tb <= 8 * e.n1 /\ e.err # 0 THEN {"doneCannotFail"} ELSE {})
+  \* the same clause read over the whole run: within budget the only error is a refused patch
+  \* (perr = number of ec_enc_patch_initial_bits calls that set the error flag)
+  \cup (IF e.tb <= 8 * e.n1 /\ e.perr = 0 /\ e.err # 0 THEN {"budget"} ELSE {})
   \cup (IF Len(e.b) # e.n1 \/ e.n1 > e.n0 THEN {"illegal"} ELSE {})
   \cup (IF NoRedecode THEN {}
         ELSE (IF Quad(d0)[1] # e.dt[1] \/ Quad(d0)[2] # e.dt[2] THEN {"m32tell"} ELSE {})
@@ -104,7 +110,7 @@ BeginReasons(h, e) ==
 
 BeginState(h, e) ==
   LET pb == PatchBitsOf(e.pt, 1, NoPatch) IN
-  [h |-> h, skip |-> FALSE, prem |-> e.err = 0 /\ MaxPatched(pb) <= LeadScan(h + 1, 0),
+  [h |-> h, skip |-> FALSE, prem |-> e.err = 0 /\ e.garb = 0 /\ MaxPatched(pb) <= LeadScan(h + 1, 0),
    pb |-> pb, o |-> 0, pe |-> e.et, pd |-> e.dt,
    d |-> IF NoRedecode THEN <<>> ELSE D!Init(e.b, e.n1), np |-> 0, ns |-> e.n0]
 
@@ -162,6 +168,10 @@ OtherState(s, e) ==
 
 EndReasons(s, e) ==
   (IF s.np # Len(Tr[s.h].pt) \/ s.ns # Tr[s.h].n1 \/ e.x # Tr[s.h].x THEN {"illegal"} ELSE {})
+  \* the decoder's own error flag (ec_dec_uint out of range) as TLC's decoding has it
+  \cup (IF ~NoRedecode /\ e.derr # s.d.err THEN {"m32val"} ELSE {})
+  \* an error-free encoder run never trips it
+  \cup (IF s.prem /\ e.derr # 0 THEN {"inverse"} ELSE {})
 
 (***************************************************************************)
 (* cursor                                                                  *)
